@@ -314,7 +314,9 @@ func (sms *sqlMetadataStore) CompleteMultipartUpload(ctx context.Context, tx *sq
 		if err != nil {
 			return nil, err
 		}
-		if opts != nil && opts.IfNoneMatchStar && nullVersionEntity != nil {
+		// A null version that is not the current version (it sits underneath a
+		// delete marker) does not make the key exist: If-None-Match must pass.
+		if opts != nil && opts.IfNoneMatchStar && nullVersionEntity != nil && nullVersionEntity.IsLatest {
 			return nil, metadatastore.ErrPreconditionFailed
 		}
 		if nullVersionEntity != nil {
